@@ -2227,13 +2227,16 @@ class SQLCompiler(Compiled):
                         # the first one
                         pass
                     elif parameter.type._is_tuple_type:
+                        # to_update has the names of the expanded
+                        # parameters, row by row
+                        expanded_names = iter(key for key, _ in to_update)
                         new_processors.update(
-                            (
-                                "%s_%s_%s" % (name, i, j),
-                                tuple_processors[name][j - 1],
-                            )
+                            (expanded_name, tuple_processors[name][j - 1])
                             for i, tuple_element in enumerate(values, 1)
-                            for j, _ in enumerate(tuple_element, 1)
+                            for j, expanded_name in zip(
+                                range(1, len(tuple_element) + 1),
+                                expanded_names,
+                            )
                             if name in tuple_processors
                             and tuple_processors[name][j - 1] is not None
                         )
